@@ -22,7 +22,7 @@ type ConvRule struct {
 	From    string `json:"from"` // as declared (short or full)
 	To      string `json:"to"`
 	Hook    int    `json:"hook"`
-	Outcome string `json:"outcome"` // ok exit1 failed-message failed-message-and-objects empty drop
+	Outcome string `json:"outcome"` // ok exit1 failed-message failed-message-and-objects empty drop extra
 }
 
 type ConvRequest struct {
@@ -65,7 +65,7 @@ func genConv(t *rapid.T) ConvCase {
 		seen[vs[a]+">"+vs[b]] = true
 		outcome := "ok"
 		if rapid.IntRange(0, 4).Draw(t, "bad") == 0 {
-			outcome = rapid.SampledFrom([]string{"exit1", "failed-message", "failed-message", "failed-message-and-objects", "empty", "drop"}).Draw(t, "outcome")
+			outcome = rapid.SampledFrom([]string{"exit1", "failed-message", "failed-message", "failed-message-and-objects", "empty", "drop", "extra"}).Draw(t, "outcome")
 		}
 		c.Rules = append(c.Rules, ConvRule{From: spell(vs[a], "sf"), To: spell(vs[b], "st"), Hook: rapid.IntRange(0, 2).Draw(t, "hook"), Outcome: outcome})
 	}
@@ -129,6 +129,9 @@ func runConv(c ConvCase) (ev.Info, error) {
 			do = vh.Behaviour{}
 		case "drop":
 			do = vh.Behaviour{ConvertTo: full(r.To), ConvertDrop: 1}
+		case "extra":
+			// one object more than the step received
+			do = vh.Behaviour{ConvertTo: full(r.To), ConvertDrop: -1}
 		}
 		scripts[r.Hook] = append(scripts[r.Hook], vh.Rule{Match: fmt.Sprintf(`"binding": "%s"`, bname), Do: do})
 	}
@@ -275,6 +278,11 @@ func runConv(c ConvCase) (ev.Info, error) {
 				if count < 0 {
 					count = 0
 				}
+			case "extra":
+				cur = short(iv.rule.To)
+				if count > 0 {
+					count++
+				}
 			default:
 				failedAt = i
 				if iv.rule.Outcome == "failed-message" || iv.rule.Outcome == "failed-message-and-objects" {
@@ -310,7 +318,7 @@ func runConv(c ConvCase) (ev.Info, error) {
 	return info, nil
 }
 
-const ruleConv = "1-3 scripted hooks declaring kubernetesCustomResourceConversion rules over 2-5 versions (short and full spellings, chains plus extra edges; each rule its own binding) assembled by the real operator; 1-4 ConversionReview requests with 1-3 objects through the real HTTP handler; per rule a scripted outcome (convert all objects / exit 1 / failedMessage / failedMessage together with converted objects / empty response / drop an object); oracle: hooks are invoked for a connected chain starting at the source, each receiving the previous output with the declared fromVersion/toVersion; Success with as many objects as requested and the desired apiVersion iff every step succeeded; otherwise Failed, with the hook's failedMessage when it wrote one, and no step after a failed one; no chain -> Failed without invocations; uid echoed. Non-trivial: a request whose shortest chain has >= 2 steps."
+const ruleConv = "1-3 scripted hooks declaring kubernetesCustomResourceConversion rules over 2-5 versions (short and full spellings, chains plus extra edges; each rule its own binding) assembled by the real operator; 1-4 ConversionReview requests with 1-3 objects through the real HTTP handler; per rule a scripted outcome (convert all objects / exit 1 / failedMessage / failedMessage together with converted objects / empty response / drop an object / write one object too many); oracle: hooks are invoked for a connected chain starting at the source, each receiving the previous output with the declared fromVersion/toVersion; Success with as many objects as requested and the desired apiVersion iff every step succeeded; otherwise Failed, with the hook's failedMessage when it wrote one, and no step after a failed one; no chain -> Failed without invocations; uid echoed. Non-trivial: a request whose shortest chain has >= 2 steps."
 
 func TestConversionE2E(t *testing.T) {
 	ev.Main(t, ev.Spec[ConvCase]{Property: "C15", Part: "e2e", Rule: ruleConv, Gen: genConv, Run: runConv, Journal: true})
